@@ -161,6 +161,12 @@ uint8 CDT_ICACHE_FLASH_ATTR supla_esp_countdown_timer_countdown(
   BOARD_ON_COUNTDOWN_START;
 #endif /*BOARD_ON_COUNTDOWN_START*/
 
+  // Evaluate the running timers first: (re)arming the shared timer below
+  // restarts its period, so a stream of commands on other channels must not
+  // postpone them. The new timer is set up afterwards, so that the time the
+  // finish callbacks take is not counted against it.
+  supla_esp_countdown_timer_cb(NULL);
+
   _t_countdown_timer_item *i = NULL;
   uint8 a;
 
@@ -194,9 +200,7 @@ uint8 CDT_ICACHE_FLASH_ATTR supla_esp_countdown_timer_countdown(
     supla_esp_state.Time2Left[i->channel_number] = i->time_left_ms;
   }
 
-  // Evaluate the running timers now: (re)arming the shared timer restarts its
-  // period, so a stream of commands on other channels must not postpone them.
-  supla_esp_countdown_timer_cb(NULL);
+  supla_esp_countdown_timer_startstop();
 
   return 1;
 }
